@@ -32,7 +32,7 @@ func (p *propC18) Assumptions() []string {
 	}
 }
 func (p *propC18) ProbeNames() []string {
-	return []string{"12-bit wrap", "8-bit wrap", "16-bit wrap", "invalid source", "event sport_point", "event gear change", "event other kind", "same stream twice", "chain of two component files", "segment file segment_lap", "course lap"}
+	return []string{"12-bit wrap", "8-bit wrap", "16-bit wrap", "invalid source", "event sport_point", "event gear change", "event other kind", "same stream twice", "chain of two component files", "segment file segment_lap", "course lap", "same records under two file types"}
 }
 
 func (p *propC18) Prepare(seed uint64, tier string) int {
@@ -224,6 +224,26 @@ func (p *propC18) Gen(idx int) *Scenario {
 	sc := &Scenario{V: 1, Property: "C18", Engine: "rx", Seed: p.seed, Index: idx, Params: map[string]string{}}
 	plan := genPlan(r, false, true)
 	switch {
+	case idx%8 == 6:
+		// twin: the same records under two file types that both hold the message kind;
+		// what a message expands to must not depend on the container
+		other := map[byte]byte{4: 6, 6: 4, 20: 4, 34: 4}[h.ft]
+		if h.mn == gSession || (h.mn == gLap && h.ft == 4) {
+			other = 20
+		}
+		if h.mn == gSegmentLap && h.ft == 4 {
+			other = 34
+		}
+		if _, ok := hostsOf(other)[h.mn]; !ok {
+			other = h.ft
+		}
+		rs2 := &RecStream{Header: rs.Header, Ops: append([]Op{}, rs.Ops...)}
+		d2 := *rs.Ops[1].Data
+		d2.Bytes = hexs([]byte{other})
+		rs2.Ops[1] = Op{Data: &d2}
+		sc.Family = "twin"
+		sc.Media = []Medium{{ID: "m0", Records: rs}, {ID: "m1", Records: rs2}}
+		sc.Tasks = []Task{{ID: 0, Call: "Decode", In: "m0", Read: plan}, {ID: 1, Call: "Decode", In: "m1", Read: plan}}
 	case idx%4 == 3:
 		h2 := c18Hosts[r.Intn(len(c18Hosts))]
 		rs2 := genComponentStream(r, h2.ft, h2.mn)
@@ -407,6 +427,9 @@ func (p *propC18) Check(sc *Scenario, st *Stats) []Violation {
 			return nil
 		}
 	}
+	if sc.Family == "twin" {
+		return p.checkTwin(sc, st)
+	}
 	res := runScenarioSeq(sc)
 	hist := sc.Family
 	for ti, r := range res {
@@ -493,6 +516,75 @@ func (p *propC18) Check(sc *Scenario, st *Stats) []Violation {
 				}
 			}
 			vs = append(vs, accumCheck(f, ft, mo.Msgs, st)...)
+		}
+	}
+	return vs
+}
+
+// checkTwin decodes the same records under two file types and compares the
+// messages of every component-bearing kind both containers hold, field by
+// field (the three accumulated destinations excluded: D11 makes the second
+// decode of a process differ).
+func (p *propC18) checkTwin(sc *Scenario, st *Stats) []Violation {
+	var vs []Violation
+	if len(sc.Media) < 2 || sc.Media[0].Records == nil || sc.Media[1].Records == nil || len(sc.Tasks) < 2 {
+		return nil
+	}
+	if !streamSane(sc.Media[0].Records.Ops) || !streamSane(sc.Media[1].Records.Ops) {
+		return nil
+	}
+	ftA, okA := fileTypeOfOps(sc.Media[0].Records.Ops)
+	ftB, okB := fileTypeOfOps(sc.Media[1].Records.Ops)
+	if !okA || !okB || !isSupportedFileType(ftA) || !isSupportedFileType(ftB) || ftA == ftB {
+		return nil
+	}
+	res := runScenarioSeq(sc)
+	for _, r := range res {
+		st.Observe(r)
+		if r.Panic != "" || r.ErrClass != "nil" || r.file == nil {
+			return []Violation{{Property: "C18", Class: "C18/twin/decode-failed", Detail: r.Panic + r.Err}}
+		}
+	}
+	st.Probe("same records under two file types")
+	st.Nontrivial++
+	skip := map[string]bool{"Distance": true, "TotalCycles": true, "AccumulatedPower": true}
+	for _, g := range []uint16{gRecord, gLap, gSession, gSegmentLap, gEvent} {
+		ha, oka := hostsOf(ftA)[g]
+		hb, okb := hostsOf(ftB)[g]
+		if !oka || !okb {
+			continue
+		}
+		va, _ := slotValues(res[0].file, ftA, ha.Field)
+		vb, _ := slotValues(res[1].file, ftB, hb.Field)
+		if !ha.Slice && len(va) > 0 {
+			va = va[len(va)-1:]
+		}
+		if !hb.Slice && len(vb) > 0 {
+			vb = vb[len(vb)-1:]
+		}
+		if ha.Slice && !hb.Slice && len(va) > 0 {
+			va = va[len(va)-1:]
+		}
+		if hb.Slice && !ha.Slice && len(vb) > 0 {
+			vb = vb[len(vb)-1:]
+		}
+		if len(va) != len(vb) {
+			vs = append(vs, Violation{Property: "C18", Class: "C18/twin/count/" + prof.MesgName(g), Detail: fmt.Sprintf("%s: %d messages in the %s file, %d in the %s file", prof.MesgName(g), len(va), fileTypeAccessor[ftA], len(vb), fileTypeAccessor[ftB])})
+			continue
+		}
+		st.Key("twin", fileTypeAccessor[ftA], fileTypeAccessor[ftB], g)
+		for i := range va {
+			for _, pf := range prof.byMesg[g] {
+				if pf.SIndex >= va[i].NumField() || (g == gRecord && skip[pf.Name]) {
+					continue
+				}
+				x, y := canonValue(va[i].Field(pf.SIndex)), canonValue(vb[i].Field(pf.SIndex))
+				if x != y {
+					vs = append(vs, Violation{Property: "C18", Class: fmt.Sprintf("C18/twin/%s.%s", prof.MesgName(g), pf.Name),
+						Detail: fmt.Sprintf("the same %s record expands differently: %s = %s in the %s file, %s in the %s file", prof.MesgName(g), pf.Name, clip(x), fileTypeAccessor[ftA], clip(y), fileTypeAccessor[ftB])})
+					return vs
+				}
+			}
 		}
 	}
 	return vs
